@@ -264,3 +264,6 @@ fn sync_initial_capacity_is_inert() {
     kani::cover!(true, "end reached");
     std::mem::forget(a); std::mem::forget(b); std::mem::forget(u);
 }
+
+// (a public-API history on the sync cache -- insert; sync; drop with a drop-counting value and the real housekeeper -- gave no
+//  verdict within 10 min even for a single insert: not instantiated; whole-cache drop of the sync cache is not decided)
